@@ -425,12 +425,16 @@ def gen_fit_c12(rng, quick=True, recovery=False):
         cdc = cdc.replace("}", ":ct}", 1) if rng.random() < 0.5 else cdc[::-1].replace("}", "}lbl:", 1)[::-1]
         labelled = True
     constraint = None
-    if family in ("R(RC)(RC)", "R(RC)(RQ)") and "R1" not in fixed and "R2" not in fixed and "R2" not in boxes and "R1" not in boxes and rng.random() < (0.25 if not recovery else 0.15):
-        ratio = p["R2"] / p["R1"]
+    order = FAMILY_ORDER[family]
+    pairs = [("R2", "R1"), ("R1", "R0")] if "R2" in p else [("R1", "R0")]
+    tgt, src = rng.choice(pairs)
+    if all(x not in fixed and x not in boxes for x in (tgt, src)) and rng.random() < (0.35 if not recovery else 0.2):
+        ratio = p[tgt] / p[src]
+        expr = {order[tgt]: f"ratio * {order[src]}"}
         if rng.random() < 0.5:
-            constraint = {"expressions": {"R_3": "ratio * R_1"}, "variables": {"ratio": {"value": ratio, "vary": False}}}
+            constraint = {"expressions": expr, "variables": {"ratio": {"value": ratio, "vary": False}}}
         else:
-            constraint = {"expressions": {"R_3": "ratio * R_1"}, "variables": {"ratio": {"value": ratio * 1.3, "min": ratio / 3, "max": ratio * 3}}}
+            constraint = {"expressions": expr, "variables": {"ratio": {"value": ratio * 1.3, "min": ratio / 3, "max": ratio * 3}}}
     if recovery:
         methods, weights = "auto", "auto"
     else:
